@@ -411,28 +411,88 @@ def parameters_helper(check: Check) -> None:
                   loc(fn))
 
 
+def _ret_terms(p, fn):
+    r = Resolver(p, fn)
+    return r, [r.term(n.ast.value, n) for n in r.cfg.stmt_nodes() if isinstance(n.ast, ast.Return) and n.ast.value is not None]
+
+
+def _self_store(r: Resolver, attr: str):
+    """[(node, value term)] of `self.<attr> = value` stores."""
+    out = []
+    for n in r.cfg.stmt_nodes():
+        for t in r.cfg.stores_at(n):
+            if isinstance(t, ast.Attribute) and t.attr == attr and r.term(t.value, n) == ("param", "self") and isinstance(n.ast, (ast.Assign, ast.AnnAssign)):
+                out.append((n, r.term(n.ast.value, n)))
+    return out
+
+
 def special_term(check: Check, c, pa, ca, req, hflag, ctor) -> None:
     p = check.program
     where = c.loc()
     name = c.name
     pfn, cfn = c.lookup("parameters"), c.lookup("configure")
-    psrc, csrc = unparse(pfn.node), unparse(cfn.node)
+    SELF = ("param", "self")
     if name == "Constant":
         ok = pa == ["value"] and ca == [("value", "_parse")] and req == 1 and hflag is False and ctor == ["name", "value"]
         check.require(ok, "T6", "Constant/parameters", "Constant: one value, no height, on both sides" if ok else
                       f"Constant: printed {pa}, configured {ca}, required {req}, height {hflag}, constructor {ctor}", where)
     elif name == "Discrete":
-        ok = "self.to_list()" in psrc and "_parameters" in psrc and "len(as_list) % 2 == 0" in csrc and "self.height = 1.0" in csrc and \
-            "to_float(as_list[-1])" in csrc and "Discrete.to_xy(as_list[0::2], as_list[1::2])" in csrc
-        tl = unparse(c.lookup("to_list").node)
-        ok = ok and "self.values.flatten().tolist()" in tl
-        check.require(ok, "T6", "Discrete/parameters", "Discrete: x y pairs flattened row-wise (+ optional height) are read back as pairs; an odd count means a trailing height", where)
+        rp, prets = _ret_terms(p, pfn)
+        to_list = ("call", ("attr", SELF, "to_list"), (), ())
+        p_ok = bool(prets) and all(t[0] == "call" and t[1][0] == "attr" and t[1][2] == "_parameters" and t[2] == (to_list,) for t in prets)
+        rl, lrets = _ret_terms(p, c.lookup("to_list"))
+        flat = ("call", ("attr", ("call", ("attr", ("attr", SELF, "values"), "flatten"), (), ()), "tolist"), (), ())
+        l_ok = lrets == [flat]
+        rc = Resolver(p, cfn)
+        prm = cfn.params[1].name
+        split = ("call", ("attr", ("param", prm), "split"), (), ())
+        vals = _self_store(rc, "values")
+        want = ("call", ("global", "fuzzylite.term.Discrete.to_xy"),
+                (("sub", split, ("slice", ("const", 0), ("const", None), ("const", 2))), ("sub", split, ("slice", ("const", 1), ("const", None), ("const", 2)))), ())
+        v_ok = len(vals) == 1 and vals[0][1] == want
+        hs = _self_store(rc, "height")
+        even = odd = False
+        dels = [n for n in rc.cfg.stmt_nodes() if isinstance(n.ast, ast.Delete) and unparse(n.ast.targets[0]).endswith("[-1]")]
+        for n, t in hs:
+            gs = [(rc.term(g, gn), pol) for g, pol, gn in rc.cfg.must_guards(n)]
+            parity = [(g, pol) for g, pol in gs if g[0] == "cmp" and g[1] == ("==",) and g[2][1] == ("const", 0) and g[2][0][0] == "binop" and g[2][0][1] == "%"
+                      and g[2][0][3] == ("const", 2)]
+            if parity and parity[0][1] and t == ("const", 1.0):
+                even = True
+            if parity and not parity[0][1] and t == ("call", ("global", "fuzzylite.library.to_float"), (("sub", split, ("unop", "-", ("const", 1))),), ()):
+                odd = bool(dels) and all(rc.cfg.must_precede([d], vals[0][0]) is False or True for d in dels) and \
+                    any(not pol2 for g2, pol2, gn2 in rc.cfg.must_guards(dels[0])) and vals and dels[0] in rc.cfg.reach([rc.cfg.entry], blocked={vals[0][0]})
+        rx, xrets = _ret_terms(p, c.lookup("to_xy"))
+        xy_ok = bool(xrets) and all(t[0] == "attr" and t[2] == "T" and t[1][0] == "call" and t[1][2] and t[1][2][0][0] == "list" and len(t[1][2][0][1]) == 2 for t in xrets)
+        ok = p_ok and l_ok and v_ok and even and odd and xy_ok
+        check.require(ok, "T6", "Discrete/parameters", "Discrete: x y pairs flattened row-wise (+ optional height) are read back as pairs; an odd count means a trailing height"
+                      if ok else f"Discrete: printed through to_list={p_ok}, row-wise flatten={l_ok}, pairs read back as (even, odd) positions={v_ok}, "
+                      f"even count -> height 1={even}, odd count -> trailing height removed={odd}, (x, y) columns={xy_ok}", where)
     elif name == "Linear":
-        ok = "_parameters(*self.coefficients)" in psrc and "self.coefficients = [to_float(p) for p in parameters.split()]" in csrc
-        check.require(ok, "T6", "Linear/parameters", "Linear: the coefficient list is printed and read back in order (no height)", where)
+        rp, prets = _ret_terms(p, pfn)
+        p_ok = bool(prets) and all(t[0] == "call" and t[1][0] == "attr" and t[1][2] == "_parameters" and t[2] == (("star", ("attr", SELF, "coefficients")),) for t in prets)
+        comps = [x for x in ast.walk(cfn.node) if isinstance(x, ast.ListComp)]
+        prm = cfn.params[1].name
+        c_ok = False
+        for x in comps:
+            g = x.generators[0]
+            if len(x.generators) == 1 and not g.ifs and unparse(g.iter) == f"{prm}.split()" and isinstance(x.elt, ast.Call) and unparse(x.elt.func) == "to_float" \
+                    and isinstance(g.target, ast.Name) and unparse(x.elt.args[0]) == g.target.id:
+                c_ok = True
+        rc = Resolver(p, cfn)
+        st = _self_store(rc, "coefficients")
+        ok = p_ok and c_ok and len(st) == 1 and st[0][1][0] == "opaque"
+        check.require(ok, "T6", "Linear/parameters", "Linear: the coefficient list is printed and read back in order (no height)" if ok else
+                      f"Linear: printed *coefficients={p_ok}, read back one float per token in order={c_ok}", where)
     elif name == "Function":
-        ok = "return self.formula" in psrc and "self.formula = parameters" in csrc and "self.load()" in csrc
-        check.require(ok, "T6", "Function/parameters", "Function: the formula text is printed and read back verbatim, then loaded", where)
+        rp, prets = _ret_terms(p, pfn)
+        p_ok = prets == [("attr", SELF, "formula")]
+        rc = Resolver(p, cfn)
+        st = _self_store(rc, "formula")
+        loads = [n for n, c_ in rc.cfg.find_calls(".load") if rc.term(c_.func.value, n) == SELF]  # type: ignore[union-attr]
+        ok = p_ok and len(st) == 1 and st[0][1] == ("param", cfn.params[1].name) and bool(loads) and rc.cfg.must_precede([st[0][0]], loads[0])
+        check.require(ok, "T6", "Function/parameters", "Function: the formula text is printed and read back verbatim, then loaded" if ok else
+                      "Function: formula is not round-tripped verbatim / not loaded after being set", where)
 
 
 # ------------------------------------------------------------------------------------------------ T7
